@@ -292,24 +292,34 @@ def evm_run(code, inp):
     return {"ok": r.ok, "out": r.out, "logs": logs, "halt": halt, "chain": ch, "addr": addr}
 
 
+def _refb(model, real):
+    """model bytes (poison = -1 matches anything) vs real bytes"""
+    return len(model) == len(real) and all(m < 0 or m == r for m, r in zip(model, real))
+
+
+def _ref_logs(model, real):
+    return len(model) == len(real) and all(len(mt) == len(rt) and all(a < 0 or a == b for a, b in zip(mt, rt)) and _refb(md, rd)
+                                           for (mt, md), (rt, rd) in zip(model, real))
+
+
 def evm_vs_obs(ev, ob):
-    """compare a pyrevm run with a decoded vrun observation; -> None or text"""
+    """compare a pyrevm run with a decoded vrun observation (the EVM must refine it); -> None or text"""
     if ob["code"] in (0, 1):
         if not ev["ok"]:
             return f"EVM failed ({ev['halt'] or 'revert ' + ev['out'].hex()[:64]}), vrun {'stop' if ob['code'] == 0 else 'return'}"
-        if ev["out"] != ob["data"]:
+        if not _refb(ob["data"], ev["out"]):
             return f"return data: EVM {ev['out'].hex()[:200]} vrun {ob['data'].hex()[:200]}"
-        if ev["logs"] != ob["logs"]:
+        if not _ref_logs(ob["logs"], ev["logs"]):
             return f"logs: EVM {ev['logs']!r:.300} vrun {ob['logs']!r:.300}"
         for k, v in ob["sto"].items():
             got = ev["chain"].storage(ev["addr"], k)
-            if got != v:
+            if v >= 0 and got != v:
                 return f"storage[{hex(k)}]: EVM {hex(got)} vrun {hex(v)}"
         return None
     if ob["code"] == 2:
         if ev["ok"] or ev["halt"]:
             return f"vrun reverts, EVM ok={ev['ok']} halt={ev['halt']}"
-        if ev["out"] != ob["data"]:
+        if not _refb(ob["data"], ev["out"]):
             return f"revert data: EVM {ev['out'].hex()[:200]} vrun {ob['data'].hex()[:200]}"
         return None
     if ob["code"] == 3:
@@ -357,6 +367,13 @@ def _select(ctx, progs):
                 continue
             by_group.setdefault((name, s["level"]), []).append(s)
     keys = sorted(by_group)
+    if not quick:
+        # thorough: every program, one level per program (rotating with the seed), every changing pass invocation
+        names = sorted({k[0] for k in keys})
+        keys = []
+        for k, n in enumerate(names):
+            lv = [l for (m, l) in sorted(by_group) if m == n]
+            keys.append((n, lv[(k + ctx.seed) % len(lv)]))
     if quick:
         # one level per program (rotating), the regression program at O2; at most 14 groups
         chosen = []
@@ -422,7 +439,7 @@ def stage2(ctx, progs):
                 return g, run_group(g, rounds, f"{os.getpid()}_{k}"), None
             except Exception as e:  # noqa
                 return g, None, f"{type(e).__name__}: {str(e)[-1500:]}"
-        with ThreadPoolExecutor(max_workers=3) as ex:
+        with ThreadPoolExecutor(max_workers=3 if ctx.tier == "quick" else 6) as ex:
             done = list(ex.map(work, enumerate(groups)))
         for k, (g, res, err) in enumerate(done):
             if err is not None:
@@ -449,6 +466,8 @@ def stage2(ctx, progs):
                     reported.add(p)
                     found |= _report_tv_mismatch(ctx, progs, g, p, i, j, f"{os.getpid()}_{k}")
             found |= _tie(ctx, progs, g, stats, f"{os.getpid()}_{k}")
+            if ctx.tier == "thorough" or k % 3 == 0:
+                found |= _tie(ctx, progs, g, stats, f"{os.getpid()}_{k}", which="first")
         for g in groups:
             g.cleanup()
         ctx.extra["pass_tv_cover"] = cover
@@ -506,21 +525,27 @@ def _report_tv_mismatch(ctx, progs, g, p, i, j, tag):
     return False
 
 
-def _tie(ctx, progs, g, stats, tag):
-    """vrun on the final snapshot vs the real back end's code for the same snapshot on pyrevm (and the legacy code as arbiter)"""
+def _tie(ctx, progs, g, stats, tag, which="final"):
+    """vrun on a snapshot vs the real back end's code for the same snapshot text on pyrevm (the legacy code is the arbiter).
+    which='final': the IR after the last pass, assembly generation only; which='first': the IR after the first pass
+    (abstract allocas, pre-SSA), compiled by the real O2 pipeline + assembly generation."""
     found = False
     entry = progs[g.prog]["entry"]
-    h = g.final_hash
+    final = which == "final"
+    text = g.final_text if final else g.first_text
+    h = X.text_hash(text)
     if h not in g.meta or g.meta[h] is None:
         return False
     try:
-        code = snapshot_bytecode(g.final_text, final=True)
+        code = snapshot_bytecode(text, final=final)
     except Exception as e:  # noqa
         stats["tie_compile_failed"] += 1
         return False
-    p_last = max(range(len(g.pairs)), key=lambda p: g.pairs[p][0]["idx"])
+    sel = max if final else min
+    p_last = sel(range(len(g.pairs)), key=lambda p: g.pairs[p][0]["idx"])
     if g.pairs[p_last][2] != h:
         return False
+    tag = f"{tag}_{which}"
     todo = [(p_last, i, 0) for i in range(len(g.inputs))]
     imports, _, _ = g.coq(todo)
     exprs = [f"render (observe S0 r_{h}_{i}_0)" for i in range(len(g.inputs))]
@@ -553,18 +578,20 @@ def _tie(ctx, progs, g, stats, tag):
             rv = evm_run(ref_code, g.inputs[i])
             arb = evm_vs_obs(rv, ob) if rv is not None else "legacy code not deployable"
         detail = {"program": g.prog, "source": entry["src"], "config": f"venom-{g.level}-cancun", "input": g.inputs[i],
-                  "ir_text": g.final_text[:8000], "difference": d, "vrun": _show(ob),
+                  "ir_text": text[:8000], "snapshot": which, "difference": d, "vrun": _show(ob),
                   "evm_venom_backend": {"ok": ev["ok"], "out": ev["out"].hex()[:400]},
                   "legacy_vs_vrun": arb or "equal",
-                  "call": "vyper.venom.generate_assembly_experimental(parse_venom(ir_text)) -> generate_bytecode -> pyrevm"}
+                  "call": ("" if final else "run_passes_on(O2) -> ") +
+                          "vyper.venom.generate_assembly_experimental(parse_venom(ir_text)) -> generate_bytecode -> pyrevm"}
         key = entry.get("key") or f"C14:backend:{g.prog}"
         if arb is None:
             detail["expected"] = "behaviour of the IR (Coq semantics vrun) = behaviour of the legacy pipeline's code for the same call"
-            ctx.violation("failing-input", f"the Venom back end (venom_to_assembly) miscompiles the final IR of {g.prog} at {g.level}: "
+            ctx.violation("failing-input", f"the Venom back end ({'venom_to_assembly' if final else 'O2 pipeline + venom_to_assembly'}) "
+                          f"miscompiles the {which} IR snapshot of {g.prog} at {g.level}: "
                           "vrun and the legacy code agree, the generated code differs", detail, key=key)
             found = True
         else:
-            ctx.violation("correspondence-broken", f"Venom.v (vrun) disagrees with the real back end on the final IR of {g.prog} at {g.level}",
+            ctx.violation("correspondence-broken", f"Venom.v (vrun) disagrees with the real back end on the {which} IR of {g.prog} at {g.level}",
                           detail, key=key)
         break
     return found
